@@ -10,7 +10,8 @@ RULE = ("every shape with dimensions 0..4 of rank 1..3, unlabelled and labelled 
         "arrays with newtype indices (rank 1 all sizes, rank 2 sizes 0..3, selected rank-3 shapes); random programs of "
         "20..60 operations (get / set in and out of shape, shared / mutable / index-paired iteration, indexes, down / "
         "down_mut, clone + ==, from_fn with distinct strides, from_iter (also too short), zeros/default, element-wise "
-        "try_from with negative cells, conv + as_ref, outer products); logs must be identical; non-trivial = total "
+        "try_from with negative cells, conv + as_ref, outer products); logs must be identical; the shared iteration "
+        "consumed through nth / skip / step_by / count / last / size_hint / fold must agree with repeated next(); non-trivial = total "
         "cells > 1")
 NONE_KINDS = ()
 TOTAL = lambda dims: __import__("functools").reduce(lambda a, b: a * b, dims, 1)
@@ -118,12 +119,72 @@ def gen(rng, tier):
                 code = program(rng, fam, dims, nops)
                 out.append(Case("arr_prog", "i64", fam, "-", dims, code, mop="arr",
                                 mdims=[0 if fam == "unl" else 1] + dims, tag="rank%d_%s" % (len(dims), fam)))
+    # shared iteration consumed through the Iterator methods an implementation may override
+    # (nth, skip, step_by, count, last, size_hint, fold): each must agree with repeated next()
+    for dims in shapes(4 if tier != "quick" else 3):
+        tot = TOTAL(dims)
+        for fam in fams_for(dims):
+            coef = [1 + rng.below(7), 10 + rng.below(7), 100 + rng.below(7), rng.below(5)]
+            probes = [(4, 0), (5, 0), (6, 0), (7, 1)]
+            ks = sorted({0, 1, 2, dims[-1], dims[-1] + 1, 2 * dims[-1], tot - 1, tot, tot + 1} & set(range(0, tot + 2)))
+            probes += [(1, k) for k in ks] + [(2, k) for k in ks if k > 0] + [(3, st) for st in (2, 3, dims[-1] + 1)]
+            if tier == "quick":
+                probes = [pr for pr in probes if pr[0] in (4, 5, 6) or rng.chance(1, 2)]
+            for kind, k in probes:
+                out.append(Case("arr_iter_adapt", "i64", fam, "-", dims, coef + [kind, k], mop="-",
+                                tag="iter_adaptors_rank%d_%s" % (len(dims), fam)))
     return out
+
+
+def lex(dims):
+    out = [[]]
+    for d in dims:
+        out = [k + [i] for k in out for i in range(d)]
+    return out
+
+
+ADAPT_NAMES = {1: "nth(%d) then next()", 2: "skip(%d)", 3: "step_by(%d)", 4: "count()", 5: "last()",
+               6: "size_hint() then next()", 7: "%d x next() then fold"}
+
+
+def adapt_predicates(c, ri):
+    if ri[0] != "OK":
+        return ["iteration failed: %s" % (ri,)]
+    log = [int(v) for v in ri[1]]
+    a, b, cc, d, kind, k = [int(x) for x in c.nums]
+    g = lambda key, i: key[i] if i < len(key) else 0
+    L = [a * g(key, 0) + b * g(key, 1) + cc * g(key, 2) + d for key in lex(c.dims)]
+    tail = [-2, 1]
+    if kind == 1:
+        want = ([L[k]] if k < len(L) else [-2]) + L[k + 1:] + tail
+    elif kind == 2:
+        want = L[k:] + tail
+    elif kind == 3:
+        want = L[::max(k, 1)] + tail
+    elif kind == 4:
+        want = [len(L)]
+    elif kind == 5:
+        want = [L[-1]] if L else [-2]
+    elif kind == 6:
+        lo, hi = log[0], log[1]
+        if lo > len(L) or (hi != -1 and hi < len(L)):
+            return ["iter().size_hint() = (%d, %s) excludes the actual number of cells %d" % (lo, hi, len(L))]
+        log = log[2:]
+        want = L + tail
+    else:
+        want = L[k:]
+    if log != want:
+        name = ADAPT_NAMES[kind] % k if "%d" in ADAPT_NAMES[kind] else ADAPT_NAMES[kind]
+        return ["the cells of a %s array of shape %s iterated through %s are not the row-major cells: got %s, the "
+                "flat specification requires %s" % (c.fam, c.dims, name, log[:30], want[:30])]
+    return []
 
 
 def compare(c, ri, rm):
     if ri[0] == "BAD":
         return "harness error: " + ri[1]
+    if c.op == "arr_iter_adapt":
+        return None    # no model run: decided by the predicate
     if ri[0] != "OK" or rm[0] != "OK":
         return "run failed: %s / %s" % (ri[0], rm[0])
     a = [int(v) for v in ri[1]]
@@ -139,5 +200,7 @@ def compare(c, ri, rm):
 def predicates(c, ri, rm):
     # the spec-level predicates are the model's theorems; a divergence of the logs is itself a
     # concrete failing history of the property (the model is proved equal to the flat-vector spec)
+    if c.op == "arr_iter_adapt":
+        return adapt_predicates(c, ri)
     m = compare(c, ri, rm)
     return ["array history diverges from the flat row-major specification: " + m] if m else []
